@@ -12,6 +12,7 @@ import (
 // an ASSUMPTION about the dependency (reported in the evidence).
 type externalInfo struct {
 	mayPanic bool   // default: does not panic
+	nilPanics []int // indexes of arguments whose being nil makes the call panic
 	mutates  []int  // indexes of slice arguments whose elements may be rewritten
 	note     string // documented behaviour relied upon
 }
@@ -20,6 +21,9 @@ var externals = map[string]externalInfo{
 	"sort.SliceStable":               {mutates: []int{0}, note: "sort.SliceStable permutes its slice argument stably by less"},
 	"golang.org/x/exp/slices.Sort":   {mutates: []int{0}, note: "slices.Sort sorts in place"},
 	"golang.org/x/exp/slices.Delete": {mayPanic: true, note: "slices.Delete panics if the range is out of bounds"},
+	"io/fs.Glob":                     {nilPanics: []int{0}, note: "fs.Glob calls a method of its FS argument: a nil FS is a nil-interface method call (panics)"},
+	"io/fs.ReadFile":                 {nilPanics: []int{0}, note: "fs.ReadFile calls a method of its FS argument: a nil FS panics"},
+	"io/fs.ReadDir":                  {nilPanics: []int{0}, note: "fs.ReadDir calls a method of its FS argument: a nil FS panics"},
 }
 
 func extKey(fn *types.Func) string {
@@ -110,6 +114,24 @@ func (g *Gen) callExternal(e *Ev, fn *types.Func, recv *Term, args []Term, n *as
 		}
 		e.checkCallsite(key, n, bind)
 	}
+	for _, i := range info.nilPanics {
+		if i < len(args) && !e.spec && !e.quiet {
+			a := args[i]
+			var isNil string
+			switch a.Sort {
+			case "nil":
+				isNil = "true"
+			case sObj:
+				isNil = smtEq(a.S, "(mkObj 0 0 str_empty)")
+			case sInt:
+				isNil = smtEq(a.S, "0")
+			default:
+				continue
+			}
+			e.panicIf(isNil, "external "+key+" panics on a nil argument", n)
+			g.Assumed["external "+key+": "+info.note] = true
+		}
+	}
 	var results []Term
 	for i := 0; i < sig.Results().Len(); i++ {
 		rt := sig.Results().At(i).Type()
@@ -145,6 +167,12 @@ func (g *Gen) callExternal(e *Ev, fn *types.Func, recv *Term, args []Term, n *as
 		if recv != nil {
 			all = append([]Term{*recv}, args...)
 		}
+		if sig.Variadic() && len(pnames) == sig.Params().Len()+len(all)-len(args) && len(all) >= len(pnames)-1 {
+			// variadic external: the block names the fixed parameters (and the variadic one, which
+			// stays unbound because the actual arguments are not packed)
+			pnames = pnames[:len(pnames)-1]
+			all = all[:len(pnames)]
+		}
 		if len(pnames) != len(all) {
 			e.errorf(n, "extern %s: %d names for %d arguments", hdr, len(pnames), len(all))
 			break
@@ -153,7 +181,7 @@ func (g *Gen) callExternal(e *Ev, fn *types.Func, recv *Term, args []Term, n *as
 		mismatch := false
 		for k, p := range strings.Split(hdr[i+1:j], ",") {
 			f := strings.Fields(p)
-			if len(f) < 2 || all[k].T == nil {
+			if k >= len(all) || len(f) < 2 || all[k].T == nil {
 				continue
 			}
 			tx, err := parser.ParseExpr(strings.Join(f[1:], " "))
@@ -332,7 +360,7 @@ func (g *Gen) callInterface(e *Ev, fn *types.Func, recv Term, args []Term, n *as
 	iface := sig.Recv().Type()
 	iname := g.namedName(iface)
 	// nil interface: method call panics
-	e.panicIf(smtEq(app("otag", recv.S), "0"), "nil interface method call", n)
+	e.panicIf(smtEq(recv.S, "(mkObj 0 0 str_empty)"), "nil interface method call", n)
 	type arm struct {
 		tag  int
 		fn   *types.Func
@@ -359,6 +387,12 @@ func (g *Gen) callInterface(e *Ev, fn *types.Func, recv Term, args []Term, n *as
 		tag := g.Pre.tagOf(types.TypeString(ct, func(p *types.Package) string { return "" }))
 		rv, _ := e.assertTo(recv, ct, n)
 		arms = append(arms, arm{tag: tag, fn: m, recv: rv})
+	}
+	if len(arms) == 0 && fn.Pkg() != nil && fn.Pkg() != g.P.Pkg.Types {
+		// a method of an interface declared by a dependency, with no implementer in this package:
+		// treated like any other external (assumed not to panic; result unconstrained)
+		g.Assumed["dynamic call of the dependency's interface method "+fn.Pkg().Path()+"."+iname+"."+fn.Name()+" is assumed not to panic and to leave this package's objects alone"] = true
+		return e.freshResults(sig, fn.Name())
 	}
 	if len(arms) == 0 {
 		if !e.spec && !e.quiet {
